@@ -1809,7 +1809,8 @@ export class AnyOfDiscriminatedRuntype extends BaseRuntype {
       return;
     }
     printingContext.markDefinitionInProgress(name);
-    const body = target.schema(ctx);
+    const schemaTarget = printingContext.getNamedTypeSchemaOverride(name) ?? target;
+    const body = schemaTarget.schema(ctx);
     printingContext.storeDefinition(name, body);
   }
 
